@@ -200,6 +200,16 @@ fn check(c: &Case, ctx: &Ctx) -> Outcome {
     if let Some(at) = repeat_at {
         samples[at] = samples[2].clone();
     }
+    // one in sixteen of the larger inputs: the first or the second half of the list are blank controls (nothing but
+    // a fragment shorter than k); whatever ska makes of such samples, it must not depend on the thread count
+    let blank_half = repeat_at.is_none() && samples.len() >= 10 && c.rc_mask % 16 == 7 && matches!(c.cmd, Cmd::Build | Cmd::AlignOneStep | Cmd::MapOneStep { .. });
+    if blank_half {
+        let n = samples.len();
+        let range = if (c.rc_mask >> 4) & 1 == 0 { 0..n / 2 } else { n / 2..n };
+        for j in range {
+            samples[j].1 = vec![anc[..k - 1].to_vec()];
+        }
+    }
     let dir = ctx.case_dir();
     let r: Result<(), Outcome> = (|| {
         let mut list = String::new();
@@ -271,6 +281,7 @@ fn check(c: &Case, ctx: &Ctx) -> Outcome {
                 Cmd::MapOneStep { vcf: true } => "map_one_step_vcf",
                 Cmd::Distance => "distance",
             }];
+            if blank_half { cl.push("half_of_the_list_without_any_kmer"); }
             if samples.len() >= 10 { cl.push(">=10_samples(parallel merge)"); }
             if samples.len() >= 70 { cl.push(">=70_samples(merge depth>=3)"); }
             if samples.len() >= 150 { cl.push(">=150_samples(merge depth 4)"); }
